@@ -182,7 +182,29 @@ def h_project_grid(ctx):
     def projection(e, n):
         return e * a + b, n * c + d
 
-    out = vd.project_grid(grid, projection, method=vd.Linear(), antialias=False)
+    conc_rec = None
+    if not ctx.sym:
+        # replay: observe what reaches qhull through a pass-through subclass of the real Delaunay
+        import verde.mask as vmask
+        from scipy.spatial import Delaunay as RealDelaunay
+
+        conc_rec = {"points": None, "queries": []}
+
+        class RecDelaunay(RealDelaunay):
+            def __init__(self, points, *a2, **k2):
+                conc_rec["points"] = np.array(points, dtype=float).copy()
+                RealDelaunay.__init__(self, points, *a2, **k2)
+
+            def find_simplex(self, xi, *a2, **k2):
+                conc_rec["queries"].append(np.array(xi, dtype=float).copy())
+                return RealDelaunay.find_simplex(self, xi, *a2, **k2)
+
+        vmask.Delaunay = RecDelaunay
+    try:
+        out = vd.project_grid(grid, projection, method=vd.Linear(), antialias=False)
+    finally:
+        if not ctx.sym:
+            vmask.Delaunay = RealDelaunay
     ctx.claim("result is a DataArray with the input's name, dims and shape", And(isinstance(out, xr.DataArray), out.name == name, tuple(out.dims) == dims, out.shape == sh))
     if out.shape != sh:
         return
@@ -212,6 +234,20 @@ def h_project_grid(ctx):
                 ctx.claim("hull tested at the projected grid nodes with the same normalisation", And(eq((E.SymReal(E.T(Qk[0])) - E.SymReal(E.T(P0[0]))) * sig[0], (east[j] * a + b) - pe[0]), eq((E.SymReal(E.T(Qk[1])) - E.SymReal(E.T(P0[1]))) * sig[1], (north[i] * c + d) - pn[0])))
     else:
         mask = None
+        ndata = sh[0] * sh[1] - (1 if hole else 0)
+        pts_ok = conc_rec["points"] is not None and conc_rec["points"].shape == (ndata, 2) and len(conc_rec["queries"]) == 1 and conc_rec["queries"][0].shape == (sh[0] * sh[1], 2)
+        ctx.claim("the hull is taken over the projected cells that carry data, and tested at every projected grid node", pts_ok)
+        if pts_ok:
+            cells = [(i, j) for i in range(sh[0]) for j in range(sh[1]) if not (hole and (i, j) == tuple(hole))]
+            pe = np.array([east[j] * a + b for (i, j) in cells])
+            pn = np.array([north[i] * c + d for (i, j) in cells])
+            se, sn = pe.std(), pn.std()
+            P, Q = conc_rec["points"], conc_rec["queries"][0]
+            scale = max(1.0, float(np.abs(pe - pe[0]).max()), float(np.abs(pn - pn[0]).max()))
+            for k in range(1, ndata):
+                ctx.claim("hull built on the projected data points (common normalisation)", CBool(abs((P[k, 0] - P[0, 0]) * se - (pe[k] - pe[0])) <= 1e-6 * scale and abs((P[k, 1] - P[0, 1]) * sn - (pn[k] - pn[0])) <= 1e-6 * scale))
+            for qi, (i, j) in enumerate((i, j) for i in range(sh[0]) for j in range(sh[1])):
+                ctx.claim("hull tested at the projected grid nodes with the same normalisation", CBool(abs((Q[qi, 0] - P[0, 0]) * se - ((east[j] * a + b) - pe[0])) <= 1e-6 * scale and abs((Q[qi, 1] - P[0, 1]) * sn - ((north[i] * c + d) - pn[0])) <= 1e-6 * scale))
     for i in range(sh[0]):
         for j in range(sh[1]):
             v = ov[i, j]
